@@ -420,6 +420,7 @@ func c01R4(p *core.Program, r *core.Report, w *core.Func, parse *ast.CallExpr) {
 		call *ast.CallExpr
 	}
 	var ws []wr
+	region := importRegion(p, w)
 	isImportsCall := func(c *ast.CallExpr) bool {
 		if isImportPrinterCall(p, info, c) {
 			return true
@@ -452,6 +453,17 @@ func c01R4(p *core.Program, r *core.Report, w *core.Func, parse *ast.CallExpr) {
 			case name == "(*bytes.Buffer).WriteTo" && len(c.Args) == 1 && sameAlias(w, c.Args[0], src) && recvOf(c) != nil:
 				// buf.WriteTo(src) is io.Copy(src, buf): shown with the operands of the copy
 				ws = append(ws, wr{q, "body", &ast.CallExpr{Fun: c.Fun, Lparen: c.Lparen, Args: []ast.Expr{c.Args[0], recvOf(c)}, Rparen: c.Rparen}})
+			case dest != nil && sameAlias(w, dest, src) && region != nil && region.Pos() <= c.Pos() && c.End() <= region.End():
+				// the import block printed in place: the statement that holds it is one step
+				dup := false
+				for _, x := range ws {
+					if x.kind == "imports" {
+						dup = true
+					}
+				}
+				if !dup {
+					ws = append(ws, wr{g.FirstIn(region), "imports", c})
+				}
 			case dest != nil && sameAlias(w, dest, src):
 				// text writes: they form the header when they precede the import block (R3 checks what they say)
 				if len(ws) > 0 && ws[len(ws)-1].kind == "header" {
